@@ -95,11 +95,12 @@ var setupReqs = []reqSpec{
 // payload receipts and leader-change signals.
 type mark struct {
 	Seq      int64  `json:"seq"`
-	Kind     string `json:"kind"` // snapshot | restart
+	Kind     string `json:"kind"` // snapshot | restart | install (a snapshot sent by the leader was installed on the running node)
 	Node     string `json:"node"`
-	Applied  uint64 `json:"applied_index,omitempty"` // the node's applied index when a snapshot was requested
+	Applied  uint64 `json:"applied_index,omitempty"` // the node's applied index when a snapshot was requested; for install: the index of the installed snapshot
 	IsLeader bool   `json:"is_leader,omitempty"`
 	Status   int    `json:"status,omitempty"`
+	From     uint64 `json:"from_index,omitempty"` // install: the node's applied index when it was cut off (entries in (From, Applied] were never applied one by one on it)
 }
 
 type postResult struct {
@@ -379,7 +380,13 @@ func runHistory(c *vf.Ctx, caseNo int, dir string) (h histOut, cleanup func()) {
 			time.Sleep(200 * time.Millisecond)
 		}
 	}
-	if cs.Directed != "" {
+	switch cs.Directed {
+	case "":
+	case motifLagInstall:
+		if !runDirectedLag(w, &h, doReq, noteLeader) {
+			return
+		}
+	default:
 		if !runDirected(w, &h, doReq, noteLeader) {
 			return
 		}
